@@ -598,8 +598,11 @@ class Hist:
         ins = list(s.net.inputs)
         part = rng.sample(ins, rng.randint(0, len(ins)))
         valid = True
-        if rng.random() < self.cfg['p_invalid']:
-            part.append('__absent__')
+        if rng.random() < max(self.cfg['p_invalid'], 0.05):
+            if part and rng.random() < 0.6:
+                part.insert(rng.randint(0, len(part)), rng.choice(part))  # a label requested more often than it occurs
+            else:
+                part.append('__absent__')
             valid = False
         self.call(lambda: s.real.order_inputs(part), [s], valid, f'#{s.sid}.order_inputs({list(part)})')
         self.scribble(s, [part], 'order_inputs')
@@ -612,8 +615,13 @@ class Hist:
         outs = list(s.net.outputs)
         part = rng.sample(outs, rng.randint(0, len(outs)))  # sub-multiset by position
         valid = True
-        if rng.random() < self.cfg['p_invalid']:
-            part.append('__absent__')
+        if rng.random() < max(self.cfg['p_invalid'], 0.05):
+            if part and rng.random() < 0.6:
+                x = rng.choice(part)
+                part = part + [x] * (outs.count(x) - part.count(x) + 1)  # once more than it occurs among the outputs
+                rng.shuffle(part)
+            else:
+                part.append('__absent__')
             valid = False
         self.call(lambda: s.real.order_outputs(part), [s], valid, f'#{s.sid}.order_outputs({list(part)})')
         self.scribble(s, [part], 'order_outputs')
@@ -1084,6 +1092,22 @@ class Hist:
                 sub.gates[g] = ({'AND': 'OR', 'OR': 'XOR', 'XOR': 'AND'}[t], ops)
                 equivalent = False
         sub.outputs = [ren[g] for g in outs]
+        if rng.random() < 0.3:
+            # which gates the replacement circuit itself marks as outputs is up to the caller; only the mapping matters
+            sub.outputs = [x for x in sub.outputs if rng.random() < 0.5]
+            self.res.stats.probes.bump('replace_subcircuit-replacement-outputs-not-all-marked')
+        collides = False
+        if rng.random() < 0.08:
+            # an inner gate of the replacement carries the label of a host gate outside the removed cone: a label clash,
+            # which must be refused (documented error), never silently resolved
+            inner = [g for g in sub.gates if sub.gates[g][0] != 'INPUT' and g not in {ren[o] for o in outs}]
+            outside = [g for g in net.gates if g not in gates and g not in leaves and g not in sub.gates]
+            if inner and outside:
+                a, b = rng.choice(inner), rng.choice(outside)
+                sub.gates = {(b if k == a else k): (t, tuple(b if o == a else o for o in ops)) for k, (t, ops) in sub.gates.items()}
+                sub.outputs = [b if o == a else o for o in sub.outputs]
+                collides = True
+                self.res.stats.probes.bump('replace_subcircuit-label-clash')
         # confirm equivalence on the model (guards the harness itself)
         try:
             la = {l: var_lanes(i, len(leaves)) for i, l in enumerate(leaves)}
